@@ -357,8 +357,16 @@ def run(tier, seed):
         if okprobe >= 2: nontrivial += 1
     ck.cases = nhist
     ck.distinct = nontrivial
-    # observations outside the property's text: recorded in the evidence, never judged
-    dist["observed_not_judged"] = {a["aux"]: a["engines"] for a in aux}
+    # a re-exported imported HOST function called from Go: "imported functions ... are the exporter's objects themselves
+    # ... on both engines identically" — the call must reach the host function on both engines
+    dist["aux_observations"] = {a["aux"]: a["engines"] for a in aux}
+    for a in aux:
+        if a["aux"] == "reexported-host-function-called-from-go":
+            for eng, what in a["engines"].items():
+                if not what.startswith("ok"):
+                    ck.violation("reexported-host-function-direct-call", {"kind": "reexported-host-function-direct-call", "engine": eng},
+                                 {"module": "(module (import \"env\" \"h\" (func (param i32))) (export \"h\" (func 0)))",
+                                  "call": "m.ExportedFunction(\"h\").Call(ctx, 7)", "engines": a["engines"]})
     ck.dist = dist
     ck.samples = [dict(id=c["id"], witness=c.get("witness"), mods=[dict(n=m["n"], fault=m["fault"], imports=[(i["kind"], i["variant"]) for i in m["imports"]]) for m in c["mods"]],
                        steps=[(s["k"], s["n"], s.get("role")) for s in c["steps"][:12]]) for c in cases[:6]]
